@@ -362,14 +362,47 @@ def r_bound(E):
     res = RuleResult("R-BOUND", "order-domain bounds: the number of instances written by every sizing branch is >= the raw "
                                 "need at every hour (ceil, copy, constant >= peak, or a user-fixed count guarded by a "
                                 "raising comparison), and active storage instances are capped by the provisioned ones")
-    targets = [(SB, "ServerBase.autoscaling_update_nb_of_instances"), (SB, "ServerBase.serverless_update_nb_of_instances"),
-               (SB, "ServerBase.on_premise_update_nb_of_instances"), (ST, "Storage.update_nb_of_instances")]
+    # the sizing branches of a server are the methods its rule dispatches to (`{type: self.<branch>, …}[self.server_type]()`)
+    # — or the rule itself when it does not dispatch; a branch either writes the attribute or returns what the rule writes
+    rel_d, disp = pm.find_function(SB, "ServerBase.update_nb_of_instances")
+    branches = []
+    for n in ast.walk(disp):
+        if isinstance(n, ast.Attribute) and isinstance(n.value, ast.Name) and n.value.id == "self" \
+                and isinstance(n.ctx, ast.Load) and n.attr not in branches:
+            m = pm.find_method("ServerBase", n.attr)[1]
+            par = getattr(n, "_parent", None)
+            called = isinstance(par, ast.Call) and par.func is n
+            if m is not None and not is_property(m) and (isinstance(par, ast.Dict) or called) \
+                    and n.attr not in ("update_nb_of_instances",):
+                branches.append(n.attr)
+    if not branches:
+        branches = ["update_nb_of_instances"]
+    if len(branches) < 3 and branches != ["update_nb_of_instances"]:
+        res.undecided.append(f"ServerBase.update_nb_of_instances dispatches to {branches}: three sizing branches expected")
+    targets = [(SB, f"ServerBase.{b}") for b in branches] + [(ST, "Storage.update_nb_of_instances")]
     for suffix, q in targets:
         rel, fn = pm.find_function(suffix, q)
         cname = q.split(".")[0]
         B = Bound(fn, lambda name, _c=cname: pm.find_method(_c, name)[1],
                   lambda name: pm.functions[name][1] if name in pm.functions else None)
         writes = [n for n in ast.walk(fn) if isinstance(n, ast.Assign) and norm(n.targets[0]) == "self.nb_of_instances"]
+        if not writes and cname == "ServerBase" and q != "ServerBase.update_nb_of_instances":
+            # the branch returns the series and the dispatching rule writes it (through label-preserving calls only)
+            wd = [n for n in ast.walk(disp) if isinstance(n, ast.Assign) and norm(n.targets[0]) == "self.nb_of_instances"]
+            ok_disp = bool(wd)
+            for w in wd:
+                base = w.value
+                while isinstance(base, ast.Call) and isinstance(base.func, ast.Attribute) and base.func.attr in PRESERVE:
+                    base = base.func.value
+                if not isinstance(base, (ast.Name, ast.Call)):
+                    ok_disp = False
+            if not ok_disp:
+                res.undecided.append(f"{q}: neither the branch nor the dispatching rule writes self.nb_of_instances")
+            writes = [ast.copy_location(ast.Assign(targets=[ast.Name(id="<returned>", ctx=ast.Store())], value=r.value), r)
+                      for r in ast.walk(fn) if isinstance(r, ast.Return) and r.value is not None]
+            for w, r in zip(writes, [r for r in ast.walk(fn) if isinstance(r, ast.Return) and r.value is not None]):
+                w._parent = getattr(r, "_parent", None)
+                w.lineno = r.lineno
         if not writes:
             res.undecided.append(f"{q}: no write of self.nb_of_instances")
         for w in writes:
@@ -1607,4 +1640,94 @@ def r_setorder(E):
     if not any(_order_source(n.args[0], _fn_of(n), None) is not None for n in sites(pos)):
         raise AnalysisError("R-SETORDER: the embedded positive example is no longer recognised")
     res.floor = 6
+    return res
+
+
+# ---------------------------------------------------------------------------------------------- R-REST (C03)
+_TIME_UNITS = {"hour", "h", "s", "second", "min", "minute", "day", "ms", "millisecond"}
+
+
+def _converted_duration(t):
+    return ".to(" in t and (".magnitude" in t or ".m" in t.split(".to(")[-1]) and any(f"u.{x}" in t for x in _TIME_UNITS)
+
+
+@rule("R-REST")
+def r_rest(E):
+    pm = E.pm
+    res = RuleResult("R-REST", "where the occupancy / placement code truncates a duration downwards (int(), math.floor, //, "
+                               "divmod) the truncated-away part is either used (`x - floor(x)`: the partly covered last "
+                               "hour) or the result is the whole-hour shift the property itself prescribes; a truncation "
+                               "whose remainder vanishes makes occurrence-hours smaller than occurrences x duration")
+    from ..astutil import fully_expanded
+    sites = [("core/usage/compute_nb_occurrences_in_parallel.py", "compute_nb_avg_hourly_occurrences", None),
+             ("abstract_modeling_classes/explainable_objects.py",
+              "ExplainableHourlyQuantities.return_shifted_hourly_quantities", "ExplainableHourlyQuantities")]
+    for suffix, q, cn in sites:
+        rel, fn0 = pm.find_function(suffix, q)
+        finder = pm.helper_finder(cn) if cn else None
+        # the function and the helpers it calls, each analysed as the function it is
+        fns, seen = [fn0], {fn0.name}
+        for c in [x for x in ast.walk(fn0) if isinstance(x, ast.Call)]:
+            h = None
+            if isinstance(c.func, ast.Name):
+                h = pm.package_function_finder()(c.func.id)
+            elif finder is not None and isinstance(c.func, ast.Attribute) and norm(c.func.value) == "self":
+                h = finder(c.func.attr)
+            if h is not None and h.name not in seen:
+                seen.add(h.name)
+                fns.append(h)
+        for fn in fns:
+            for c in [x for x in ast.walk(fn) if isinstance(x, (ast.Call, ast.BinOp))]:
+                if isinstance(c, ast.Call):
+                    f = norm(c.func)
+                    if f not in ("int", "math.floor", "np.floor", "math.trunc", "floor", "trunc", "divmod") or not c.args:
+                        continue
+                    arg = c.args[0]
+                else:
+                    if not isinstance(c.op, ast.FloorDiv):
+                        continue
+                    f, arg = "//", c.left
+                xa = fully_expanded(arg, fn)
+                t = norm(xa)
+                if not _converted_duration(t):
+                    continue
+                # divmod(x, k) / x // k of an already truncated x is judged at the inner truncation
+                if any(isinstance(y, ast.Call) and norm(y.func) in ("int", "math.floor", "np.floor", "math.trunc")
+                       and y is not c for y in ast.walk(arg)):
+                    continue
+                res.instances += 1
+                # (a) the remainder is used: some `X - T` / `X % k` in the function with X the same duration
+                holder = c
+                par = getattr(c, "_parent", None)
+                names = {tg.id for tg in par.targets if isinstance(tg, ast.Name)} if isinstance(par, ast.Assign) and par.value is c else set()
+
+                def is_trunc(e):
+                    return e is holder or (isinstance(e, ast.Name) and e.id in names) or norm(fully_expanded(e, fn)) == norm(fully_expanded(holder, fn))
+                rest_used = f == "divmod" or any(
+                    isinstance(b, ast.BinOp) and ((isinstance(b.op, ast.Sub) and is_trunc(b.right)
+                                                   and norm(fully_expanded(b.left, fn)) == t)
+                                                  or (isinstance(b.op, ast.Mod) and norm(fully_expanded(b.left, fn)) == t))
+                    for b in ast.walk(fn))
+                # (b) the count only places values: it reaches nothing but the periods of a label shift
+                def shift_count(u):
+                    par = getattr(u, "_parent", None)
+                    if isinstance(par, ast.keyword) and par.arg == "periods":
+                        par = getattr(par, "_parent", None)
+                        return isinstance(par, ast.Call) and isinstance(par.func, ast.Attribute) and par.func.attr == "shift"
+                    return isinstance(par, ast.Call) and isinstance(par.func, ast.Attribute) and par.func.attr == "shift" \
+                        and bool(par.args) and par.args[0] is u
+                uses = [u for u in ast.walk(fn) if isinstance(u, ast.Name) and u.id in names and isinstance(u.ctx, ast.Load)]
+                only_shift = (bool(names) and bool(uses) and all(shift_count(u) for u in uses)) or shift_count(holder)
+                if rest_used or (only_shift and q.endswith("return_shifted_hourly_quantities")):
+                    if len(res.samples) < 4:
+                        res.samples.append({"function": fn.name, "truncation": norm(c)[:70],
+                                            "verdict": "remainder used" if rest_used else "whole-hour shift (prescribed)"})
+                    continue
+                res.findings.append(Finding(
+                    "R-REST", f"{fn.name} :: {norm(c)[:80]}",
+                    f"{fn.name} truncates a duration (`{norm(c)[:70]}`) and the part cut off is used nowhere: a request of "
+                    f"400 ms counts for nothing and one of 1.5 s for 1 s, so occurrence-hours (and what is sized from them) "
+                    f"fall short of occurrences x duration", pm.path_of_function(fn) if hasattr(pm, "path_of_function") else rel,
+                    c.lineno, fn.name))
+    res.floor = 2
     return res
